@@ -98,6 +98,8 @@ pub struct RefStore {
     pub blob_header_len: u64,
     /// record-count limit of a blob (rotation is requested by the write that reaches it)
     pub max_data: u64,
+    /// size limit of a blob file in bytes (the other rotation trigger)
+    pub max_size: u64,
     /// virtual time in seconds (advanced by the Tick operations only)
     pub now: u64,
     /// a deferred index dump is registered with the worker: (first event, last event)
@@ -120,6 +122,7 @@ impl RefStore {
             allow_duplicates,
             blob_header_len: 20,
             max_data: u64::MAX,
+            max_size: u64::MAX,
             now: 0,
             deferred: None,
             deadline: None,
@@ -238,7 +241,11 @@ impl RefStore {
             disk_len,
         });
         // overflow: the worker switches to a new blob
-        if self.active.as_ref().unwrap().records.len() as u64 >= self.max_data {
+        let full = {
+            let a = self.active.as_ref().unwrap();
+            a.records.len() as u64 >= self.max_data || self.blob_file_len(a) >= self.max_size
+        };
+        if full {
             let a = self.active.take().unwrap();
             self.closed.push(Some(a));
             self.create_active();
